@@ -35,12 +35,52 @@ SCENARIOS = {
 UNBALANCED = {"mixed_4x2_3", "mixed_2x4_3", "unbalanced31", "unbalanced13", "unreduced", "mixed_then_child", "mixed_6x4_5"}
 
 
+def random_shape(rng):
+    """Random pedigree DAG: 3-6 samples, parents drawn among earlier samples (selfing and unknown parents allowed),
+    ploidy 2/4 (occasionally 6), gamete ploidies summing to the progeny ploidy (balanced, unbalanced or clonal)."""
+    n = int(rng.integers(3, 7))
+    ploidies, parents, tau = [], [], []
+    for i in range(n):
+        if i < 2 or rng.random() < 0.25:
+            pl = int(rng.choice([2, 2, 4, 4, 6]))
+            ploidies.append(pl)
+            parents.append((-1, -1))
+            tau.append((pl // 2, pl - pl // 2))
+            continue
+        p = int(rng.integers(-1, i))
+        q = int(rng.integers(-1, i)) if rng.random() > 0.15 else p
+        opts = []
+        for tp in range(0, 4):
+            for tq in range(0, 4):
+                if tp + tq < 2 or tp + tq > 6 or tp + tq == 5 and rng.random() < 0.7:
+                    continue
+                if p >= 0 and tp > ploidies[p]:
+                    continue
+                if q >= 0 and tq > ploidies[q]:
+                    continue
+                if tp == 0 and tq == 0:
+                    continue
+                opts.append((tp, tq))
+        bal = [o for o in opts if o[0] == o[1]]
+        cand = bal if (bal and rng.random() < 0.5) else opts
+        tp, tq = cand[int(rng.integers(len(cand)))]
+        ploidies.append(tp + tq)
+        parents.append((p, q))
+        tau.append((tp, tq))
+    return ploidies, parents, tau
+
+
 def make_pedigree(rng, name=None):
     if name is None:
         name = str(rng.choice(sorted(SCENARIOS)))
-    ploidies, parents, tau = SCENARIOS[name]
+    if name == "random":
+        ploidies, parents, tau = random_shape(rng)
+    else:
+        ploidies, parents, tau = SCENARIOS[name]
     n = len(ploidies)
     n_haps = int(rng.choice([2, 3, 3, 4])) if max(ploidies) <= 4 else int(rng.choice([2, 3, 4]))
+    if name == "random" and sum(ploidies) > 16:
+        n_haps = min(n_haps, 3)
     n_pos = int(rng.integers(1, 4))
     haps, n_alleles = gen.gen_haplotype_set(rng, n_haps, n_pos)
     n_haps = len(haps)
